@@ -7,7 +7,7 @@
 import json, os, subprocess, sys, time, re
 name, checks = sys.argv[1], sys.argv[2:]
 d = "/verif/seeded/" + name
-WT = "/var/tmp/mut"
+WT = os.environ.get("SEED_WT", "/var/tmp/mut")
 env = dict(os.environ)
 env["PATH"] = "/root/go/pkg/mod/golang.org/toolchain@v0.0.1-go1.26.5.linux-amd64/bin:" + env["PATH"]
 env.update(GOTOOLCHAIN="local", GOFLAGS="-mod=mod", GOPROXY="off", GOSUMDB="off")
